@@ -1097,6 +1097,41 @@ int __wrap_fstat(int fd, struct stat *st) { SYS_FAIL(-1); int r = fstat(fd, st);
 int __wrap_lstat(const char *p, struct stat *st) { SYS_FAIL(-1); int r = lstat(p, st); on_event(); return r; }
 }
 
+// ---- atomic operations of library code (plain variant: the TSan pass, atomics only, see Makefile). Each is a yield
+// point and a conflict point BEFORE the operation, then the operation itself, sequentially consistent.
+extern "C" {
+void __tsan_init(void) {}
+void __tsan_atomic_thread_fence(int) { sim_conflict_point(); __atomic_thread_fence(__ATOMIC_SEQ_CST); }
+void __tsan_atomic_signal_fence(int) { on_event(); }
+#define TSAN_ATOMICS(N, T)                                                                                                  \
+    T __tsan_atomic##N##_load(const volatile T *a, int) { sim_conflict_point(); return __atomic_load_n(a, __ATOMIC_SEQ_CST); } \
+    void __tsan_atomic##N##_store(volatile T *a, T v, int) { sim_conflict_point(); __atomic_store_n(a, v, __ATOMIC_SEQ_CST); } \
+    T __tsan_atomic##N##_exchange(volatile T *a, T v, int) { sim_conflict_point(); return __atomic_exchange_n(a, v, __ATOMIC_SEQ_CST); } \
+    T __tsan_atomic##N##_fetch_add(volatile T *a, T v, int) { sim_conflict_point(); return __atomic_fetch_add(a, v, __ATOMIC_SEQ_CST); } \
+    T __tsan_atomic##N##_fetch_sub(volatile T *a, T v, int) { sim_conflict_point(); return __atomic_fetch_sub(a, v, __ATOMIC_SEQ_CST); } \
+    T __tsan_atomic##N##_fetch_and(volatile T *a, T v, int) { sim_conflict_point(); return __atomic_fetch_and(a, v, __ATOMIC_SEQ_CST); } \
+    T __tsan_atomic##N##_fetch_or(volatile T *a, T v, int) { sim_conflict_point(); return __atomic_fetch_or(a, v, __ATOMIC_SEQ_CST); } \
+    T __tsan_atomic##N##_fetch_xor(volatile T *a, T v, int) { sim_conflict_point(); return __atomic_fetch_xor(a, v, __ATOMIC_SEQ_CST); } \
+    T __tsan_atomic##N##_fetch_nand(volatile T *a, T v, int) { sim_conflict_point(); return __atomic_fetch_nand(a, v, __ATOMIC_SEQ_CST); } \
+    int __tsan_atomic##N##_compare_exchange_strong(volatile T *a, T *c, T v, int, int) {                                    \
+        sim_conflict_point();                                                                                              \
+        return __atomic_compare_exchange_n(a, c, v, 0, __ATOMIC_SEQ_CST, __ATOMIC_SEQ_CST);                                 \
+    }                                                                                                                      \
+    int __tsan_atomic##N##_compare_exchange_weak(volatile T *a, T *c, T v, int, int) {                                      \
+        sim_conflict_point();                                                                                              \
+        return __atomic_compare_exchange_n(a, c, v, 0, __ATOMIC_SEQ_CST, __ATOMIC_SEQ_CST);                                 \
+    }                                                                                                                      \
+    T __tsan_atomic##N##_compare_exchange_val(volatile T *a, T c, T v, int, int) {                                          \
+        sim_conflict_point();                                                                                              \
+        __atomic_compare_exchange_n(a, &c, v, 0, __ATOMIC_SEQ_CST, __ATOMIC_SEQ_CST);                                       \
+        return c;                                                                                                          \
+    }
+TSAN_ATOMICS(8, unsigned char)
+TSAN_ATOMICS(16, unsigned short)
+TSAN_ATOMICS(32, unsigned int)
+TSAN_ATOMICS(64, unsigned long)
+}
+
 void (*g_handler_hook)(int hid, int code) = nullptr;
 void (*g_handler_after)(int hid) = nullptr;
 struct HandlerCall {
